@@ -4,7 +4,9 @@ import json, os, shutil, sys, glob
 prop, wt, m, caught, notes = sys.argv[1:6]
 src = os.path.join(wt, "mutants", m)
 dst = os.path.join("/verif/seeded", "%s-%s" % (prop, m))
-os.makedirs(dst, exist_ok=True)
+if os.path.exists(dst):
+    sys.exit("refusing to overwrite %s: copy the mutant directory to r<round>mK first" % dst)
+os.makedirs(dst)
 shutil.copy(os.path.join(src, "patch.diff"), dst)
 for f in glob.glob(os.path.join(src, "demo*")):
     if not f.endswith(".log"):
